@@ -97,8 +97,8 @@ def t_step(sess, n_grains, steps, regime="matrix_dislocation"):
     N = n_grains
     sess.bounds[f"step[N={N},k={steps}]"] = f"history of 2 arbitrary valid snapshots, {steps} solver step(s) with arbitrary finite state after each, symbolic parameters"
     sess.assume_env("LSODA contract: after each step y is an arbitrary finite vector whose clipped volume block has positive sum; rhs evaluated at the start of every step")
-    sess.outside_claim("orthonormality / right-handedness drift bound 5e-3 + 1e-3 (N + 2 strain): a statement about LSODA's accumulated error; its first-order mechanism is C03 (skew spin)")
-    sess.outside_claim("validity and seed-reproducibility of the default-constructed initial snapshot (scipy Rotation.random, C code, no quantified input)")
+    sess.outside_claim("size of the orthonormality / right-handedness drift (5e-3 + 1e-3 (N + 2 strain)): LSODA's accumulated error; its first-order mechanism (rates tangent to SO(3)) is decided for every accepted regime in t_rate_tangent")
+    sess.outside_claim("that scipy's Rotation.random returns proper rotations deterministically for a seed (its contract); the plumbing of seed and grain count into it is decided in t_seed_plumbing")
     log, dlog = [], []
     plan = stubs.LsodaPlan(steps=steps, n_grains=N, eval_rhs_each_step=True)
 
